@@ -478,6 +478,20 @@ func kindOfDiff(d string) string {
 
 func runC18(r *core.Run) {
 	r.Rule("bounded-exhaustive: every rooted tree with <= 5 (quick) / 6 (thorough) nodes over {directory incl. empty, empty file, 5-byte file, relative/absolute/dangling symlink} with names {a,'b c','é','0'} materialised on a scratch directory, imported with BuildUnixFSRecursive and read back through Reify (symlink nodes decoded by the model) vs an independent Lstat/ReadDir/Readlink/ReadFile walk; fixed large cases: directory estimate just below/above the auto-shard threshold, multi-chunk file, file and symlink roots; rejection: every tree (<= 4/5 nodes) with a FIFO or unix socket added at every directory position must give an error and no link")
+	// an import needs a handful of descriptors at a time, however many entries a
+	// directory has: the whole check runs with a soft limit of 512 open files
+	// (the fixtures include directories of 1030..1111 files), so that an importer
+	// that keeps every file of a directory open fails here instead of only at
+	// the limit of the machine it happens to run on
+	var lim syscall.Rlimit
+	if err := syscall.Getrlimit(syscall.RLIMIT_NOFILE, &lim); err == nil && lim.Cur > 512 {
+		old := lim
+		lim.Cur = 512
+		if syscall.Setrlimit(syscall.RLIMIT_NOFILE, &lim) == nil {
+			defer syscall.Setrlimit(syscall.RLIMIT_NOFILE, &old)
+			r.Assume("soft RLIMIT_NOFILE lowered to 512 for the duration of the check")
+		}
+	}
 	max := 5
 	if !r.Quick() {
 		max = 6
